@@ -22,6 +22,15 @@ def run(ctx):
                                                        nops=(5, 35) if quick else (10, 100), recipe_cfgs=5 if quick else 40,
                                                        cfg_filter=lambda c: c.rr is not None),
                         oracle, need_reopen=False, max_shrink=5)
+    # reopen-then-edit generations: continuation areas of a parsed image must be tracked before new ones are placed
+    hist = list(sysprops.histories(ctx, 30 if quick else 500, ['ce_gap_plus', 'long_symlinks'], dict(allow_refusals=False, long_rr=0.5, max_depth=5),
+                                   nops=(6, 30), recipe_cfgs=2 if quick else 10, cfg_filter=lambda c: c.rr is not None))
+    for label, cfg, ops, sizes in hist:
+        if len(ops) < 3:
+            continue
+        rp = (ctx.rng.randrange(1, len(ops)),)
+        sysprops.run_oracle(ctx, 'C08', iter([(label + '+reopen', cfg, ops, sizes)]), oracle, need_reopen=False, max_shrink=1,
+                            build_kwargs={'reopen_points': rp})
     ctx.cov['rule'] = ('Rock Ridge images (1.09/1.10/1.12 x XA x Joliet/UDF) of random histories with 30% long names plus recipes: '
                        'continuation-area gaps of exactly the needed size +-1 after rm_directory, trees deeper than 8 (relocation, also '
                        'with XA), symlink targets crossing every SL record/component boundary; an independent SUSP/RRIP reader must '
